@@ -15,6 +15,7 @@ def run(ctx):
                    "challenge -> verify_prehashed wiring.")
     ctx.undecided = "the 2^-128 soundness bound and the correctness of the NAF multiscalar routine (numeric)."
     ctx.floor = 10
+    refusal_inventory(ctx)
     P = ctx.prog
     f = ctx.anchor(CORE + "batch::Verifier::<C>::verify")
     if f:
